@@ -90,7 +90,9 @@ Apply(e) ==
 Broken(e) ==
   (IF InstantOK' \/ ~InstantOK THEN {} ELSE {"InstantOK"}) \cup
   (IF CrashSafe' \/ ~CrashSafe THEN {} ELSE {"CrashSafe"}) \cup
-  (IF e.ev = "rend" /\ ~ReadOK(e.id, e.c) THEN {"ReadOK"} ELSE {})
+  (IF e.ev = "rend" /\ ~ReadOK(e.id, e.c) THEN {"ReadOK"} ELSE {}) \cup
+  \* poll runs: what the harness found at the path when the save had returned
+  (IF e.ev = "pend" /\ e.c \notin Allowed THEN {"InstantOK"} ELSE {})
 
 RECURSIVE SetToSeq(_)
 SetToSeq(S) == IF S = {} THEN <<>> ELSE LET x == CHOOSE x \in S : TRUE IN <<x>> \o SetToSeq(S \ {x})
